@@ -134,7 +134,7 @@ func (g *progGen) stmt(depth int) (string, bool) {
 	}
 	extra := 0
 	if g.o.EarlyExits {
-		extra = 4
+		extra = 5
 	}
 	k := g.pick("stmt", max+extra)
 	if k >= max {
@@ -378,6 +378,15 @@ func (g *progGen) earlyExit(depth, k int) (string, bool) {
 		return fmt.Sprintf("try { out %s ; err %s ; out %s -> msort -> mtac ; out %s }", g.newTag(), g.newTag(), g.newTag(), g.newTag()), true
 	case 2:
 		return fmt.Sprintf("trypipe { %%[a,b] -> [7] -> msort -> mtac ; out %s }", g.newTag()), true
+	case 4:
+		// a call that fails before the function body runs: the argument
+		// cannot be converted to the declared parameter type
+		name := fmt.Sprintf("vt%x_%d", g.id, g.tag)
+		g.tag++
+		if g.inFunc || depth > 0 {
+			return fmt.Sprintf("out %s", g.newTag()), false
+		}
+		return fmt.Sprintf("function %s (a: int) { out $a }\n%s notanumber", name, name), true
 	default:
 		if g.inLoop > 0 {
 			return "if { $v1 > 0 } then { continue foreach }", true
